@@ -57,8 +57,11 @@ CFGS = [("ias15", {}), ("bs", {}), ("whfast", {}), ("whfast", {"safe_mode": 0, "
         ("mercurius", {}), ("mercurius", {"safe_mode": 0}), ("trace", {"peri_mode": "FULL_BS"}), ("trace", {"peri_mode": "PARTIAL_BS"}), ("trace", {"peri_mode": "FULL_IAS15"})]
 
 
-def system(kind, rng):
+def system(kind, rng, units=True, gidx=None):
     sim = rebound.Simulation()
+    GS = [39.47841760435743, 1.0, 0.37, 1.0]
+    g = GS[gidx % 4] if gidx is not None else rng.choice(GS)        # units: orbital elements are converted with the simulation's own G
+    sim.G = g if units else 1.0                                 # (BS has an absolute tolerance: its accuracy class is tied to the unit system)
     sim.add(m=1.0)
     if kind == "eccentric":
         sim.add(m=1e-3, a=1.0, e=0.9, inc=0.4, Omega=0.3, omega=1.0, f=2.0)
@@ -76,14 +79,15 @@ def system(kind, rng):
 
 def conservation(res, classes, rng, tier):
     nsteps = 600 if tier == "quick" else 4000
-    for name, opts in CFGS * (1 if tier == "quick" else 6):
+    for gidx, (name, opts) in enumerate(CFGS * (1 if tier == "quick" else 6)):
+        gidx = gidx + gidx // len(CFGS)          # every configuration meets every unit system over the repetitions
         for kind in (("regular", "eccentric") if name in ("trace", "mercurius", "ias15", "bs") else ("regular",)):
-            sim = system(kind, rng)
+            sim = system(kind, rng, units=name != "bs", gidx=gidx)
             sim.integrator = name
             ri = getattr(sim, "ri_" + name, None)
             for k, v in opts.items():
                 setattr(ri, k, v)
-            sim.dt = 0.02 if kind == "eccentric" else 0.03
+            sim.dt = (0.02 if kind == "eccentric" else 0.03) / math.sqrt(sim.G)       # the same fraction of an orbit in every unit system
             M = sum(p.m for p in sim.particles)
             P0 = [sum(p.m * getattr(p, c) for p in sim.particles) for c in ("vx", "vy", "vz")]
             c0 = sim.com()
@@ -129,7 +133,7 @@ def conservation(res, classes, rng, tier):
                 res["violations"].append({"kind": "angular-momentum-drift", "integrator": name, "opts": opts, "system": kind, "L": worst["L"], "class": cl[1]})
             if dec(worst["E"]) > cl[2]:
                 res["violations"].append({"kind": "energy-error", "integrator": name, "opts": opts, "system": kind, "E": worst["E"], "class": cl[2]})
-            elif name not in ("ias15", "bs") and kind == "regular" and nsteps >= 4000 and half["b"] > 8 * max(half["a"], 1e-12):
+            elif name not in ("ias15", "bs") and kind == "regular" and nsteps >= 4000 and half["b"] > 8 * max(half["a"], 1e-12) and half["b"] > 1e-8:      # (errors at the 1e-10 level wander by such factors with the phase)
                 # "bounded and non-drifting": the running maximum of the second half (about ten inner orbits) against the first
                 res["violations"].append({"kind": "energy-drift", "integrator": name, "opts": opts, "system": kind, "first_half": half["a"], "second_half": half["b"]})
 
@@ -214,12 +218,67 @@ def encounter_energy(res, tier):
 ENC_CLASS = 1e-4
 
 
+def merger_runs(res):
+    """a merging collision in the middle of a run, every integrator: N drops by exactly one, total mass is unchanged, total momentum and the
+    uniform motion of the centre of mass hold to rounding across the merger AND over the steps that follow it (an integrator that
+    keeps its own copy of the state must notice that the particle array changed)"""
+    worst = {}
+    for name, opts in (("ias15", {}), ("bs", {}), ("whfast", {}), ("whfast", {"coordinates": "democraticheliocentric"}), ("whfast", {"coordinates": "whds"}),
+                       ("saba", {}), ("eos", {}), ("leapfrog", {}), ("janus", {}), ("mercurius", {}), ("trace", {})):
+        sim = rebound.Simulation()
+        sim.add(m=1.0, r=1e-3)
+        sim.add(m=1e-3, a=1.0, e=0.02, r=2e-3)
+        sim.add(m=5e-4, a=1.8, e=0.05, f=2.0, r=2e-3)
+        # two small bodies on a collision course far from the planets
+        sim.add(m=2e-4, x=3.0, y=0.0, z=0.1, vx=0.0, vy=0.55, vz=0.0, r=0.02)
+        sim.add(m=1e-4, x=3.0 + 0.2, y=0.0, z=0.1, vx=-0.9, vy=0.55, vz=0.0, r=0.02)
+        for p in sim.particles:
+            p.vx += 0.07
+            p.vz -= 0.03
+        sim.integrator = name
+        ri = getattr(sim, "ri_" + name, None)
+        for k, v in opts.items():
+            setattr(ri, k, v)
+        sim.collision = "direct"
+        sim.collision_resolve = "merge"
+        sim.dt = 0.01
+        M0 = sum(p.m for p in sim.particles)
+        P0 = [sum(p.m * getattr(p, c) for p in sim.particles) for c in ("vx", "vy", "vz")]
+        c0 = sim.com()
+        scale = sum(p.m * math.sqrt(p.vx ** 2 + p.vy ** 2 + p.vz ** 2) for p in sim.particles)
+        N0 = sim.N
+        bad = None
+        try:
+            for k in range(60):
+                sim.step()
+                sim.synchronize()
+                M = sum(p.m for p in sim.particles)
+                P = [sum(p.m * getattr(p, c) for p in sim.particles) for c in ("vx", "vy", "vz")]
+                c = sim.com()
+                dP = max(abs(a - b) for a, b in zip(P, P0)) / scale
+                dC = max(abs(getattr(c, q) - (getattr(c0, q) + P0[i] / M0 * sim.t)) for i, q in enumerate("xyz"))
+                lim = 1e-12 if name in ("janus", "bs") else 1e-13
+                if abs(M - M0) > 1e-15 or dP > lim or dC > 100 * lim or sim.N not in (N0, N0 - 1):
+                    bad = {"step": k + 1, "N": sim.N, "dM": M - M0, "dP": dP, "dC": dC}
+                    break
+                worst[name + str(opts)] = max(worst.get(name + str(opts), 0.0), dP)
+        except Exception as e:  # noqa: BLE001
+            bad = {"error": str(e)[:100]}
+        res["runs"] += 1
+        if bad is None and sim.N != N0 - 1:
+            bad = {"note": "the pair never merged or merged more than once", "N": sim.N}
+        if bad:
+            res["violations"].append({"kind": "merger", "integrator": name, "opts": opts, "system": "two small bodies merging at x = 3", **bad})
+    res["merger_worst_dP"] = worst
+
+
 def main():
     table, out, seed, tier = sys.argv[1], sys.argv[2], int(sys.argv[3]), sys.argv[4]
     rng = random.Random(seed)
     res = {"lattice": 0, "runs": 0, "violations": [], "observed": {}}
     momentum_probe(res, random.Random(seed + 3))
     encounter_energy(res, tier)
+    merger_runs(res)
     rows, classes = [], None
     for ln in open(table):
         r = json.loads(ln)
